@@ -495,6 +495,78 @@ def rule_pairs(ctx, n):
         yield case, cfg
 
 
+INSTANCE_NORMALISED = {"app": ["Relative_Cardinality_Sat", "Relative_Cost_Approx_Normaliser_Sat", "Relative_Cardinality_Sat", "Cost_Sat"],
+                       "card": ["Additive_Cardinal_Sat"], "cum": ["Additive_Cardinal_Sat"], "ord": ["Additive_Borda_Sat"]}
+
+
+def _both_forms(ctx, case, cfg, what, rebuild=None):
+    outs = []
+    for multi in (False, True):
+        b = rules.Built(case, multi=multi)
+        if rebuild is not None:
+            rebuild(b, multi)
+        c = dict(cfg, multi=multi)
+        rulegen.fix_loads(c, b)
+        a, _ = rules.impl_answer(b, c)
+        outs.append(rules.canon(a))
+    ctx.evaluations += 1
+    if cfg["rule"] != "maxw" and outs[0] != outs[1]:
+        ctx.violations.append(violation(what, case, cfg, impl=outs[1], expected=outs[0], sig={"call": "rule:" + cfg["rule"], "sat": cfg.get("sat"), "stream": cfg.get("stream")}))
+    if len(case.entries()) >= 2:
+        ctx.nontrivial.add(case.key() + json.dumps(ruleprops.cfg_json(cfg), sort_keys=True))
+    return outs
+
+
+def _detach(how, case):
+    from pabutools.election import Instance
+
+    def rebuild(b, multi):
+        other = Instance() if how == "none" else Instance(list(b.inst), budget_limit=core.to_cost(case.budget * (F(1, 2) if how == "half" else 3)))
+        b.prof = core.build_profile(case, other, b.projs, multi=multi)
+    return rebuild
+
+
+def detached_stream(ctx, n):
+    rng = random.Random(ctx.rng.getrandbits(48))
+    for _ in range(n):
+        if ctx.budget_s is not None and ctx.elapsed() > ctx.budget_s:
+            break
+        case = core.gen_equalcost_election(rng, btypes=("app", "app", "app", "card", "ord")) if rng.random() < 0.5 else gen_case(rng)
+        if len(case.entries()) == len(case.ballots) and case.ballots:
+            case = Case(case.projects, case.budget, case.btype, list(case.ballots) + [case.ballots[0]] * rng.randint(1, 2), case.seed)
+        cfg = rulegen.gen_rule_cfg(rng, case, rules=("mes", "greedy", "greedy"), allow_refuse=False, allow_float=False)
+        if cfg.get("sat") != "CC_Sat":
+            cfg["sat"] = rng.choice(INSTANCE_NORMALISED[case.btype])
+        if not cfg["res"] and len(case.projects) > 5:
+            cfg["res"] = True
+        how = rng.choice(["none", "triple", "half"])
+        cfg["stream"] = "detached:" + how
+        ctx.count("stream", "profile attached to another instance (" + how + ")")
+        _both_forms(ctx, case, cfg, "rule outcome differs between profile and multiprofile when the profile is attached to another instance than the one the rule is asked about",
+                    rebuild=_detach(how, case))
+
+
+def tie_profile_stream(ctx, n):
+    from .C08 import tie_rich_election
+
+    rng = random.Random(ctx.rng.getrandbits(48))
+    for _ in range(n):
+        if ctx.budget_s is not None and ctx.elapsed() > ctx.budget_s:
+            break
+        case = tie_rich_election(rng)
+        if case.btype != "app":
+            case = Case(case.projects, case.budget, "app", core.gen_ballots(rng, "app", [nm for nm, _ in case.projects], 2, 7, distinct_hi=3), case.seed)
+        if len(case.entries()) == len(case.ballots) and case.ballots:
+            case = Case(case.projects, case.budget, case.btype, list(case.ballots) + [rng.choice(case.ballots)] * rng.randint(1, 3), case.seed)
+        cfg = rulegen.gen_rule_cfg(rng, case, rules=("greedy", "phragmen", "mes"), allow_refuse=False, allow_float=False)
+        cfg["tie"] = "app_score"
+        if not cfg["res"] and len(case.projects) > 5:
+            cfg["res"] = True
+        cfg["stream"] = "tie-rich:app_score"
+        ctx.count("stream", "tie-rich elections with repeated ballots, app_score tie-breaking")
+        _both_forms(ctx, case, cfg, "rule outcome differs between profile and multiprofile")
+
+
 def run(ctx, n_rules=None, n_el=None, compare=True, n_hist=None):
     ctx.rule = RULE
     n_rules = n_rules or ctx.scale(3000, 15000)
@@ -575,6 +647,11 @@ def run(ctx, n_rules=None, n_el=None, compare=True, n_hist=None):
         if outs[0] != outs[1]:
             ctx.violations.append(violation("wrapper outcome differs between profile and multiprofile", case, cfg, impl=outs[1], expected=outs[0],
                                             sig={"call": "wrapper:" + cfg["mode"]}))
+    # (a+) round 6, drawn after the streams above: (i) the rule is asked about ANOTHER instance than the one the profile is attached to
+    # (a what-if copy with another budget limit, or a profile built without `instance=`), with the measures that are normalised by the
+    # instance; (ii) tie-rich elections with repeated ballots under the tie-breaking rules that read the profile
+    detached_stream(ctx, ctx.scale(700, 6000))
+    tie_profile_stream(ctx, ctx.scale(1200, 10000))
     # (a'') edit-in-place histories: convert, edit ballots in place, convert again
     history_stream(ctx, n_hist if n_hist is not None else ctx.scale(300, 3000))
     # (b) measures and analysis functions
@@ -605,6 +682,10 @@ def replay(payload):
     if "rule" in cfg:
         cfg = ruleprops.cfg_from_json(cfg)
         bP, bM = rules.Built(case, multi=False), rules.Built(case, multi=True)
+        if str(cfg.get("stream", "")).startswith("detached:"):
+            rb = _detach(cfg["stream"].split(":", 1)[1], case)
+            rb(bP, False)
+            rb(bM, True)
         cP, cM = dict(cfg), dict(cfg)
         rulegen.fix_loads(cP, bP)
         rulegen.fix_loads(cM, bM)
